@@ -1051,6 +1051,37 @@ func (l *live) updaterGet() {
 		}
 		since := us.since
 		overlap := *ov
+		// For every Get, overlapping or not: a Get that begins after an
+		// install has completed must return a value built from that install
+		// or a later one (unless the builder rejects those bytes).
+		l.absorbLocked()
+		{
+			ins := l.installs[us.name]
+			lo := -1
+			for i, in := range ins {
+				if in.stamp < call && in.version != 0 {
+					lo = i
+				}
+			}
+			if lo >= 0 && got != nil {
+				ok := false
+				rejected := false
+				for i := lo; i < len(ins); i++ {
+					if ins[i].stamp > ret {
+						break
+					}
+					if ins[i].version == got.version {
+						ok = true
+					}
+					if us.failOn[ins[i].version] {
+						rejected = true
+					}
+				}
+				if !ok && !rejected {
+					l.fail("upd-lost", "updater %d (%q): version %d had been installed before this Get began, but Get returned the value built from version %d (installs %v, Get stamps [%d,%d])", us.id, us.name, ins[lo].version, got.version, ins, call, ret)
+				}
+			}
+		}
 		if overlap {
 			// concurrent Gets on one updater: only the weak invariants
 			w.S.Probe("updater-concurrent-get")
